@@ -96,10 +96,10 @@ def run(ctx):
                         prob = check_gas(p, pp, ALLOW, CFG)
                         ctx.ob("R18.7", key + "/gas limit of %s payout" % pp["kind"], prob is None, detail=prob,
                                sample={"gas_limit": show(pp["gas_limit"])[:160] if pp["gas_limit"] else None})
-    ctx.floor("R18.1", "ALLOW_LIST writes outside instantiate", n_allow, 2)
-    ctx.floor("R18.6", "cw20 escrow paths", n_gate, 4)
-    ctx.floor("R18.7", "payouts with gas limit", n_gas, 6)
-    ctx.floor("R18.5", "CONFIG writes", n_cfg, 3)
+    ctx.floor("R18.1", "ALLOW_LIST writes outside instantiate", n_allow, 1)
+    ctx.floor("R18.6", "cw20 escrow paths", n_gate, 1)
+    ctx.floor("R18.7", "payouts with gas limit", n_gas, 3)
+    ctx.floor("R18.5", "CONFIG writes", n_cfg, 2)
 
 
 def check_allow(ctx, p, key, e):
